@@ -1,5 +1,30 @@
 """Property -> rules (DESIGN.md section 4)."""
-from .rules import live, walk, exc, graph, graph2, repair, purity, misc, misc2
+from .core import AnalysisError
+from .rules import live as _live, walk as _walk, exc as _exc, graph as _graph, graph2 as _graph2, repair as _repair, \
+    purity as _purity, misc as _misc, misc2 as _misc2
+
+
+class _Guarded:
+    """a rule that loses its anchor (AnalysisError) must not hide the refutations of its sibling rules:
+    the error is recorded on the run, the remaining rules still execute"""
+
+    def __init__(self, mod):
+        self._mod = mod
+
+    def __getattr__(self, name):
+        fn = getattr(self._mod, name)
+
+        def wrapper(ctx, *a, **k):
+            try:
+                return fn(ctx, *a, **k)
+            except AnalysisError as e:
+                ctx.run.errors.append(str(e))
+                return None
+        return wrapper
+
+
+live, walk, exc, graph, graph2, repair, purity, misc, misc2 = (
+    _Guarded(m) for m in (_live, _walk, _exc, _graph, _graph2, _repair, _purity, _misc, _misc2))
 
 SW, GR, OP, BF = 'dsw.spiderweb.', 'dsw.graphized.', 'dsw.operation.', 'dsw.biofilter.'
 
@@ -15,6 +40,7 @@ def coder_common(ctx):
 
 
 def c01(ctx):
+    purity.r_state_closure(ctx, SW + 'encode', SW + 'decode')
     coder_common(ctx)
     walk.r_ahead(ctx)
     walk.r_vtuse(ctx)
@@ -23,11 +49,13 @@ def c01(ctx):
 
 
 def c05(ctx):
+    purity.r_state_closure(ctx, SW + 'encode', SW + 'decode')
     coder_common(ctx)
     walk.r_vtuse(ctx)
 
 
 def c06(ctx):
+    purity.r_state_closure(ctx, SW + 'decode')
     fqs = ctx.closure(SW + 'decode')
     live.r_live(ctx, fqs, floor=2, what='liveness predicates in decode')
     live.r_alpha(ctx, fqs, floor=1)
@@ -40,6 +68,7 @@ def c06(ctx):
 
 
 def c02(ctx):
+    purity.r_state_closure(ctx, SW + 'find_vertices', SW + 'connect_valid_graph', SW + 'connect_coding_graph', SW + 'encode', BF + 'LocalBioFilter.valid', BF + 'LocalBioFilter.__init__')
     graph.r_mask(ctx)
     gen = [SW + 'connect_valid_graph', SW + 'connect_coding_graph', GR + 'get_complete_accessor']
     graph2.r_arc(ctx, gen, floor=4)
@@ -55,6 +84,7 @@ def c02(ctx):
 
 
 def c03(ctx):
+    purity.r_state_closure(ctx, SW + 'connect_coding_graph', GR + 'latter_map_to_accessor', GR + 'remove_useless')
     exc.r_exc(ctx, SW + 'connect_coding_graph', {'ValueError'}, floor=3)
     graph.r_kplumb(ctx, [SW + 'connect_coding_graph'], floor=4)
     graph.r_shift(ctx)
@@ -63,11 +93,14 @@ def c03(ctx):
     graph2.r_ord_threshold(ctx)
     graph2.r_fix(ctx)
     graph2.r_arb(ctx)
+    graph2.r_cascade(ctx)
+    graph2.r_useless_kept(ctx)
     purity.r_pure(ctx, [SW + 'connect_coding_graph', GR + 'remove_useless', GR + 'latter_map_to_accessor'],
                   only_params=('vertices', 'latter_map'), floor=3)
 
 
 def c11(ctx):
+    purity.r_state_closure(ctx, SW + 'find_vertices', SW + 'connect_valid_graph')
     graph.r_iface(ctx)
     graph.r_mask(ctx)
     graph2.r_ord_empty(ctx, SW + 'find_vertices')
@@ -81,6 +114,7 @@ def c11(ctx):
 
 
 def c13(ctx):
+    purity.r_state_closure(ctx, GR + 'obtain_latters', GR + 'obtain_formers', GR + 'get_complete_accessor', OP + 'number_to_dna', OP + 'dna_to_number', GR + 'latter_map_to_accessor', GR + 'adjacency_matrix_to_accessor', SW + 'connect_valid_graph', SW + 'connect_coding_graph')
     graph.r_shift(ctx, with_latter=True)
     graph.r_kplumb(ctx, None, floor=11)
     graph2.r_arc(ctx, ctx.p.funcs.keys(), floor=8, derived=False)
@@ -89,6 +123,7 @@ def c13(ctx):
 
 
 def c04(ctx):
+    purity.r_state_closure(ctx, SW + 'encode', SW + 'connect_coding_graph')
     live.r_live(ctx, [SW + 'encode'], floor=2)
     walk.r_walk(ctx, [SW + 'encode'], {SW + 'encode': 2})
     walk.r_deg(ctx, ['encode'])
@@ -96,24 +131,30 @@ def c04(ctx):
     # termination of everything the encoder calls; the two coder loops themselves are decided per out-degree by R-DEG
     # (every branching step divides the variant / advances the cursor), out-degree-1 chains are graph-dependent
     repair.r_prog(ctx, SW + 'encode', skip_whiles_in=(SW + 'encode',))
+    graph2.r_arb(ctx)
+    graph2.r_cascade(ctx)
     ctx.run.notes.append('termination on out-degree-1 chains depends on the generated graph (C03) and is not decided')
 
 
 def c08(ctx):
+    purity.r_state_closure(ctx, SW + 'repair_dna')
     fqs = [SW + 'repair_dna', GR + 'path_matching']
     live.r_live(ctx, fqs, floor=5)
     walk.r_walk(ctx, fqs, {SW + 'repair_dna': 1, GR + 'path_matching': 5})
     repair.r_tile(ctx)
     repair.r_cand(ctx)
+    repair.r_sites(ctx)
 
 
 def c09(ctx):
+    purity.r_state_closure(ctx, SW + 'repair_dna')
     repair.r_ret(ctx)
     live.r_live(ctx, [SW + 'repair_dna'], floor=1)
     walk.r_walk(ctx, [SW + 'repair_dna'], {SW + 'repair_dna': 1})
 
 
 def c10(ctx):
+    purity.r_state_closure(ctx, SW + 'repair_dna')
     repair.r_prog(ctx, SW + 'repair_dna')
     repair.r_heap_guard(ctx)
     exc.r_exc(ctx, SW + 'repair_dna', set(), floor=0)
@@ -122,6 +163,7 @@ def c10(ctx):
 
 
 def c07(ctx):
+    purity.r_state_closure(ctx, SW + 'set_vt', SW + 'decode')
     misc.r_vtform(ctx)
     exc.r_typed_index(ctx, SW + 'set_vt')
     exc.r_typed_dispatch(ctx, [SW + 'set_vt'], floor=1)
@@ -131,11 +173,13 @@ def c07(ctx):
 
 
 def c12(ctx):
+    purity.r_state_closure(ctx, BF + 'LocalBioFilter.valid', BF + 'LocalBioFilter.__init__')
     misc.r_filter(ctx)
     purity.r_pure(ctx, [BF + 'LocalBioFilter.valid'], floor=1)
 
 
 def c14(ctx):
+    purity.r_state_closure(ctx, GR + 'accessor_to_adjacency_matrix', GR + 'adjacency_matrix_to_accessor', GR + 'accessor_to_latter_map', GR + 'latter_map_to_accessor', GR + 'obtain_vertices', GR + 'obtain_leaf_vertices')
     conv = [GR + n for n in ('accessor_to_adjacency_matrix', 'adjacency_matrix_to_accessor', 'accessor_to_latter_map',
                              'latter_map_to_accessor', 'obtain_vertices', 'obtain_leaf_vertices')]
     live.r_live(ctx, conv, floor=5)
@@ -149,18 +193,21 @@ def c14(ctx):
 
 
 def c16(ctx):
+    purity.r_state_closure(ctx, OP + 'bit_to_number', OP + 'number_to_bit', OP + 'dna_to_number', OP + 'number_to_dna')
     misc2.r_conv(ctx)
     live.r_alpha(ctx, [OP + 'dna_to_number', OP + 'number_to_dna'], floor=2)
     exc.r_typed_dispatch(ctx, ctx.p.funcs.keys(), floor=5)
 
 
 def c18(ctx):
+    purity.r_state_closure(ctx, SW + 'create_random_shuffles', SW + 'encode', SW + 'decode')
     misc2.r_shuf(ctx)
     purity.r_pure(ctx, [SW + 'create_random_shuffles'], floor=1)
     walk.r_sel(ctx)
 
 
 def c19(ctx):
+    purity.r_state_closure(ctx, SW + 'remove_nasty_arc')
     misc2.r_pair(ctx)
     graph.r_shift(ctx, ('obtain_latters',), with_latter=True)
     graph.r_kplumb(ctx, [SW + 'remove_nasty_arc'], floor=3)
